@@ -90,7 +90,7 @@ def impl_parse(text, fn="parse_op"):
         cls = common.classify_exc(e)
         if cls == "SyntaxError":
             return {"kind": "err", "pos": list(e.pos), "bracket_msg": "inconsistent bracket" in str(e),
-                    "quotes_input": ('"' + text + '"') in str(e) or len(e.pos) == 0 and "%EXPR%" not in str(e)}
+                    "quotes_input": ('"' + text + '"') in str(e)}
         if cls == "TIMEOUT":
             return {"kind": "timeout"}
         return {"kind": "internal", "exc": cls, "site": common.exc_site(e)}
@@ -300,6 +300,17 @@ def _op_level_quote(text):
     return None
 
 
+def _solve_level_quote(text):
+    """solve_* take one side of an operation: handed a text with an arrow (spaced or not) they complain about the caller's string"""
+    import einx
+    try:
+        common.with_alarm(20, einx.solve_axes, text, np.zeros((2,)))
+    except BaseException as e:  # noqa: BLE001
+        if common.classify_exc(e) == "SyntaxError" and ('Expression: "' + text + '"') not in str(e):
+            return ({"kind": "solve_error_does_not_quote_the_input", "ascii": text.isascii() and text.isprintable()}, {"input": text, "message": str(e)[:400]})
+    return None
+
+
 def run(ctx):
     rng = ctx.rng
     maxlen = 4 if ctx.tier == "quick" else 5
@@ -343,6 +354,13 @@ def run(ctx):
     bad = bad[: 150 if ctx.tier == "quick" else 3000]
     bad = bad + [" " + t for t in bad[:50]] + [t + " " for t in bad[50:100]] + [t.replace(" ", "  ", 1) for t in bad[100:150] if " " in t]
     for r in common.pmap(_op_level_quote, bad):
+        if r is not None:
+            ctx.report(*r)
+    arrows = [t for t in inputs if "->" in t and "\n" not in t and '"' not in t and t.count("(") == t.count(")") and t.count("[") == t.count("]")]
+    rng.shuffle(arrows)
+    arrows = arrows[: 150 if ctx.tier == "quick" else 3000]
+    arrows = arrows + [t.replace(" -> ", "->") for t in arrows[:60]] + [t.replace("->", " ->") for t in arrows[60:90]]
+    for r in common.pmap(_solve_level_quote, arrows):
         if r is not None:
             ctx.report(*r)
     for t in corpus[:3] + struct[:3]:
